@@ -8,6 +8,6 @@ mkdir -p /verif/seeded/$s
 cp $out/patch.diff $out/meta.json /verif/seeded/$s/
 for f in $out/demo* $out/*.cpp $out/*.sh; do [ -f "$f" ] && [ ! -x "$f" -o "${f##*.}" != "" ] && case "$f" in *.cpp|*.sh|*.txt|*.md) cp "$f" /verif/seeded/$s/;; esac; done
 git -C /repo worktree remove --force /tmp/seed-$s 2>/dev/null || rm -rf /tmp/seed-$s
-rm -rf /tmp/seed-$s-build /tmp/seed-$s-out /tmp/seed-$s-*.log
+rm -rf /tmp/seed-$s-build /tmp/seed-$s-out /tmp/seed-$s-fast /tmp/seed-$s-*.log
 git -C /repo worktree prune
 ls /verif/seeded/$s
